@@ -474,6 +474,7 @@ class Engine:
             if len(parts)>=2 and parts[-2] in self.enums and last in self.enums[parts[-2]]:
                 return Agg(parts[-2],[],self.enums[parts[-2]].index(last),last)
             if last in self.src.structs and not self.src.structs[last]: return Agg(last,[])
+            if last in ('RangeFull','PhantomData'): return Agg(last,[])
             return Opaque('const:'+key)
         return Opaque('const:'+s)
 
